@@ -117,6 +117,8 @@ class Facts:
                 self.promoted[(b["path"], b["promoted"])] = b
             else:
                 self.mir.setdefault(b["path"], b)
+        if self.inlined is not None and self.inlined.new:
+            inline.apply_mir(self, self.inlined)
 
     # ---- lookup helpers: match on path with generic parameters stripped ----
     @staticmethod
